@@ -578,6 +578,25 @@ impl<'r> G<'r> {
         }
         v.push(Stmt::Data(items));
         if self.rng.chance(1, 4) {
+            // a second (third) DATA statement on the same line: READ goes through them in order
+            for _ in 0..1 + self.rng.usize(2) {
+                let m = 1 + self.rng.usize(3);
+                let mut more = vec![];
+                for _ in 0..m {
+                    more.push(match self.rng.below(4) {
+                        0..=2 => DataItem::Num(self.rng.s(&["11", "12", "-13", "14.5", "0"]).to_string()),
+                        _ => DataItem::Str(self.rng.s(&["second", "x:y", ""]).to_string(), true),
+                    });
+                }
+                self.data_items += m;
+                if self.rng.chance(1, 3) {
+                    v.push(self.simple_stmt());
+                }
+                v.push(Stmt::Data(more));
+            }
+            self.feat("DATA-twice-on-a-line");
+        }
+        if self.rng.chance(1, 4) {
             v.push(self.print_stmt());
         } else if self.opts.type_mistake_permille > 0 && self.rng.chance(1, 6) {
             let m = self.mistyped_stmt();
